@@ -195,6 +195,11 @@ class Sandbox:
             self._stop_mocking(context)
             self._capture_exception(system_exit, sys.exc_info(),
                                     code, filename)
+        except BaseException:
+            # KeyboardInterrupt, GeneratorExit, etc. are not ours to swallow,
+            # but the patched stdout/modules must not outlive the execution
+            self._stop_mocking(context)
+            raise
         else:
             self._stop_mocking(context)
 
